@@ -30,6 +30,7 @@ import json
 import random
 
 from harness import histories, impl
+from harness.lanes import c05_pyjson
 from harness.core import LaneBase, hx
 from harness.impl import CausalGraph, EdgeType, Node, NodeVariableType, TimeSeriesCausalGraph, TimeSeriesNode, cj
 
@@ -355,7 +356,11 @@ class Lane(LaneBase):
             'unparsable plain graphs); the dictionary always goes through json.dumps/json.loads. Non-trivial: the graph has '
             'at least one edge and at least one non-empty metadata dictionary; distinct by the hash of the canonical '
             'dictionary text (plus the mutation for mutated dictionaries).')
-    TRUSTED = ['json.dumps / json.loads on JSON-representable trees (metadata values travel as canonical JSON text)',
+    TRUSTED = ['json.dumps / json.loads: transcribed (CG.PyJson, from json.encoder / json.decoder / json.scanner of CPython 3.12) and '
+               'PROVED to round-trip on every tree of str / int / bool / None / list / dict (CG.C05Json.loads_dumps, also for '
+               'sort_keys and for the compact format the harness tokens use); what stays trusted is that the transcribed lines '
+               'are what json runs (compared on every dictionary of the lane), and the float half of json for the two float '
+               'values in the metadata pool (such dictionaries answer `unsupported` on both sides)',
                'str(int) / JSON text of the reserved values time_lag, variable_name',
                'sepsets are not modelled (from_causal_graph copies them separately)',
                'after JSON the implementation stores edge types as raw str (not EdgeType); they compare equal to the enum '
@@ -474,10 +479,19 @@ class Lane(LaneBase):
             tags.add('type:' + etext(e.get_edge_type()))
 
         d = {}
+        lines_json = False
         for inc in (1, 0):
-            d[inc] = through_json(g.to_dict(include_meta=bool(inc)))
+            raw = g.to_dict(include_meta=bool(inc))
+            d[inc] = through_json(raw)
             lines.append(f'dict to {inc} {tok}')
             out.append(dict_text(d[inc]))
+            # the JSON text layer itself: CPython's json.dumps / json.loads against their Lean transcription (CG.PyJson,
+            # proved to round-trip: CG.C05Json.loads_dumps); a dictionary holding a float answers `unsupported` on both sides
+            if inc == 1 or not lines_json:
+                for ln, exp in c05_pyjson.through_json_lines(raw):
+                    lines.append(ln)
+                    out.append(exp)
+                lines_json = True
         # iterating a graph yields the items of its dictionary (`dict(g)` is the documented short form of `g.to_dict()`)
         try:
             if json.dumps(dict(g)) != json.dumps(g.to_dict()):
